@@ -5,8 +5,8 @@ drv_box ops (layer L3).
 
   box c10 <n> <op> ; <op> ; ...     one history of the application-level machine over objects 0..n-1;
                                      answer: the outcome and a snapshot after every op, joined by " | "
-      ops:  send k.. | fetch k.. | back k T|F | drop k | collect | dO | dP | close
-      snapshot:  <outcome> t=<slot>,.. p=<slot>,.. h=<held ids, sorted> r=<ready results> o=[..] q=[..]
+      ops:  send k.. | fetch k.. | back k T|F | drop k | collect | expire j | dO | dP | close
+      snapshot:  <outcome> t=<slot>,.. p=<slot>,.. h=<held ids, sorted> r=<ready results> w=<waiters: o|x expired> o=[..] q=[..]
 -/
 namespace Rpyc.Drv
 open Rpyc Rpyc.Box
@@ -20,6 +20,7 @@ def parseAOp : List String → Option AOp
   | ["back", k, "F"] => (parseNatChars k.toList).map (fun k => .back k false)
   | ["drop", k] => (parseNatChars k.toList).map .drop
   | ["collect"] => some .collect
+  | ["expire", j] => (parseNatChars j.toList).map .expire
   | ["dO"] => some .deliverO2P
   | ["dP"] => some .deliverP2O
   | ["close"] => some .close
@@ -40,7 +41,7 @@ def showIds (ks : List Nat) : String := " ".intercalate (ks.map toString)
 def showMsgO : MsgO → String
   | .req ids => "req" ++ String.join (ids.map (fun k => " " ++ toString k))
   | .reply ids kept => "reply" ++ String.join (ids.map (fun k => " " ++ toString k)) ++ (if kept then " T" else " F")
-  | .exc => "exc"
+  | .exc _ => "exc"
 
 def showMsgP : MsgP → String
   | .del k n => "del " ++ toString k ++ " " ++ toString n
@@ -66,6 +67,7 @@ def snapshot (n : Nat) (o : AOut) (a : App) : String :=
     ++ " p=" ++ ",".intercalate ((List.range n).map (fun k => showSlot (a.s.px k)))
     ++ " h=" ++ ",".intercalate ((a.held.foldr insertSorted []).map toString)
     ++ " r=" ++ toString a.results.length
+    ++ " w=" ++ String.join (a.waiters.map (fun w => if w then "x" else "o"))
     ++ " o=[" ++ ";".intercalate (a.s.o2p.map showMsgO) ++ "]"
     ++ " q=[" ++ ";".intercalate (a.s.p2o.map showMsgP) ++ "]"
     ++ (if a.s.closed then " closed" else "")
